@@ -135,8 +135,11 @@ def observe_query(sc, traced=True):
     b.tracer = trace
     api = sc["api"]
     out = []
+    direct = src is not doc and (len(json.dumps(sc["path"])) + len(sc["doc"] if isinstance(sc["doc"], str) else json.dumps(sc["doc"]))) % 3 == 0
     if api in ("find_matches", "find"):
         fn = find_matches if api == "find_matches" else find
+        if direct and api == "find_matches":
+            from treepath import nested_find_matches as fn      # the exported nested variant, called directly
         del log[:]
         it = fn(expr, src, trace=trace)
         if log:
@@ -159,7 +162,10 @@ def observe_query(sc, traced=True):
     del log[:]
     try:
         if api == "get_match":
-            r = get_match(expr, src, must_match=sc.get("must_match", True), trace=trace)
+            gm = get_match
+            if direct:
+                from treepath import nested_get_match as gm      # the exported nested variant, called directly
+            r = gm(expr, src, must_match=sc.get("must_match", True), trace=trace)
             sig = ["N"] if r is None else ["R", node_full(r)]
         else:
             d = sc.get("default")
@@ -562,13 +568,15 @@ def observe_descr_op(env, doc, op, fin, views, iters):
             v = getattr(holder, chain[-1][0])
             fin("vals", [], [_unbox(x) for x in v], many=True)
             return True
-        g = {"get": get, "find": find, "get_match": get_match}[getter]
+        g = {"get": get, "find": find, "get_match": get_match, "find_matches": find_matches}[getter]
         cls = env.build(chain, lambda e: attr(e, getter=g, **_conv_kwargs(conv)) if e is not None else attr(getter=g, **_conv_kwargs(conv)))
         holder = env.holder(cls, doc, chain)
         v = getattr(holder, chain[-1][0])
         if getter != "get":
             v = _unbox(v)       # the converter was applied to the iterator / Match as a whole
-        if getter == "find":
+        if getter == "find_matches":
+            fin("vals", [], [m.data for m in v], many=True)
+        elif getter == "find":
             fin("vals", [], list(v), many=True)
         elif getter == "get_match":
             if v is None:
